@@ -26,19 +26,7 @@ func vC01(canary bool) {
 	vHavocQueue(w.pq, M, 0, P-1)
 	pc := Address(vU64("pc"))
 	vAssume(pc < M)
-	// optional case split on the executed instruction's form
-	if k := vParamOr("op", -1); k >= 0 {
-		s.mem[pc].Op = OpCode(k)
-	}
-	if k := vParamOr("opmode", -1); k >= 0 {
-		s.mem[pc].OpMode = OpMode(k)
-	}
-	if k := vParamOr("amode", -1); k >= 0 {
-		s.mem[pc].AMode = AddressMode(k)
-	}
-	if k := vParamOr("bmode", -1); k >= 0 {
-		s.mem[pc].BMode = AddressMode(k)
-	}
+	vSetForm(s, pc)
 
 	ref := vRefFrom(s, w)
 	ref.canary = canary
